@@ -95,7 +95,7 @@ pub fn render_sample(sc: &Scenario) -> serde_json::Value {
 /// worker: runs indices w, w+n, ... strictly sequentially
 /// child side of the minimisation: minimise the replay in `path` in place
 pub fn mmin(path: &str) -> i32 {
-    let Some(mut rp) = std::fs::read_to_string(path).ok().and_then(|t| serde_json::from_str::<Replay>(&t).ok()) else { return 2 };
+    let Some(mut rp) = std::fs::read_to_string(path).ok().and_then(|t| from_json::<Replay>(&t).ok()) else { return 2 };
     minimize::minimize(&mut rp, 600);
     if std::fs::write(path, serde_json::to_string(&rp).unwrap()).is_err() {
         return 2;
@@ -174,6 +174,16 @@ pub fn worker(id: &str, tier: &str, seed: u64, w: u64, n: u64) -> i32 {
     let mut o = stdout.lock();
     let _ = writeln!(o, "{}", serde_json::to_string(&serde_json::json!({"summary": sum})).unwrap());
     0
+}
+
+/// JSON without serde_json's nesting limit of 128: a straight-line program of 130 statements is a
+/// value nested 130 deep, and a finding that does not parse must never be dropped silently.
+pub fn from_json<T: serde::de::DeserializeOwned>(s: &str) -> Result<T, serde_json::Error> {
+    let mut de = serde_json::Deserializer::from_str(s);
+    de.disable_recursion_limit();
+    let v = T::deserialize(&mut de)?;
+    de.end()?;
+    Ok(v)
 }
 
 /// Environment variable through which a restarted worker learns where to continue.
@@ -326,7 +336,7 @@ pub fn write_replay(rp: &Replay) -> String {
 /// re-execute a replay file; returns the findings of the recorded property/class
 pub fn replay_file(path: &str) -> Result<(Replay, Vec<Finding>), String> {
     let s = std::fs::read_to_string(path).map_err(|e| format!("{path}: {e}"))?;
-    let rp: Replay = serde_json::from_str(&s).map_err(|e| format!("{path}: {e}"))?;
+    let rp: Replay = from_json(&s).map_err(|e| format!("{path}: {e}"))?;
     let fs = replay_findings(&rp);
     Ok((rp, fs))
 }
@@ -371,16 +381,25 @@ pub fn check(id: &str, tier: &str) -> i32 {
                 total.note(&n);
             }
             for l in lines {
-                let v: serde_json::Value = match serde_json::from_str(&l) {
+                // (typed envelopes: going through serde_json::Value would hit the nesting limit again)
+                #[derive(Deserialize)]
+                struct Line {
+                    found: Option<FoundLine>,
+                    summary: Option<WorkerSummary>,
+                }
+                let v: Line = match from_json(&l) {
                     Ok(v) => v,
-                    Err(_) => continue,
-                };
-                if let Some(f) = v.get("found") {
-                    if let Ok(fl) = serde_json::from_value::<FoundLine>(f.clone()) {
-                        found.push(fl);
+                    Err(e) => {
+                        if harness.is_none() {
+                            harness = Some(format!("a worker line could not be read: {e}: {}", l.chars().take(120).collect::<String>()));
+                        }
+                        continue;
                     }
-                } else if let Some(s) = v.get("summary") {
-                    if let Ok(ws) = serde_json::from_value::<WorkerSummary>(s.clone()) {
+                };
+                if let Some(fl) = v.found {
+                    found.push(fl);
+                } else if let Some(ws) = v.summary {
+                    {
                         total.merge(&ws.stats);
                         hashes.extend(ws.hashes.iter().copied());
                         if samples.len() < 3 {
@@ -434,7 +453,7 @@ pub fn check(id: &str, tier: &str) -> i32 {
             if std::fs::write(&tmp, serde_json::to_string(&rp).unwrap()).is_ok() {
                 let st = Command::new(&exe).args(["mmin", &tmp]).stdout(Stdio::null()).stderr(Stdio::null()).status();
                 if st.ok().and_then(|s| s.code()) == Some(0) {
-                    if let Some(m) = std::fs::read_to_string(&tmp).ok().and_then(|t| serde_json::from_str::<Replay>(&t).ok()) {
+                    if let Some(m) = std::fs::read_to_string(&tmp).ok().and_then(|t| from_json::<Replay>(&t).ok()) {
                         rp = m;
                     }
                 } else {
